@@ -78,6 +78,7 @@ class Ctx:
         self.analysed = []           # (lexer name, code digest) seen by lex seam
         self.analysed_paths = []     # rel paths seen by the _analyze_file recorder
         self.module_state_dirty = builtins.set()
+        self.last_live = None        # last renderable handed to the Live display
 
 
 CTX = Ctx()
@@ -584,6 +585,7 @@ class SimLive:
 
     def update(self, renderable, *, refresh=False):
         self._last = renderable
+        CTX.last_live = renderable
         CTX.counters["live_updates"] += 1
         # render synchronously (exercises the table code, never feeds back)
         from rich.console import Console
@@ -635,6 +637,11 @@ def snapshot_module_state():
             _MODULE_STATE.append((obj, obj.copy(), where))
         if owner is not None and type(obj) in (list, dict, REAL["set"]) + _SCALARS:
             _BINDINGS.append((owner, attr, obj, where))
+    def consider_defaults(fn, where):
+        # mutable default arguments live as long as the process does
+        for d in (fn.__defaults__ or ()) + tuple((fn.__kwdefaults__ or {}).values()):
+            consider(d, where + "(default argument)")
+
     for name, mod in sorted(sys.modules.items()):
         if mod is None or not (name == "codelimit" or name.startswith("codelimit.")):
             continue
@@ -642,8 +649,13 @@ def snapshot_module_state():
             if attr.startswith("__") or attr == "set":
                 continue
             consider(val, "%s.%s" % (name, attr), mod, attr)
+            if inspect.isfunction(val) and getattr(val, "__module__", None) == name:
+                consider_defaults(val, "%s.%s" % (name, attr))
             if inspect.isclass(val) and getattr(val, "__module__", None) == name:
                 for cattr, cval in list(vars(val).items()):
+                    f = getattr(cval, "__func__", cval)
+                    if inspect.isfunction(f):
+                        consider_defaults(f, "%s.%s.%s" % (name, attr, cattr))
                     if not cattr.startswith("__") and not (cattr.startswith("_") and cattr.endswith("_")):
                         consider(cval, "%s.%s.%s" % (name, attr, cattr), val, cattr)
     return len(_MODULE_STATE)
